@@ -1217,6 +1217,12 @@ class Exec:
                 d = int(self.p.ty(v.ty)['adt']['variants'][v.variant]['discr'])
                 k = self.p.kind(dest_ty)
                 return norm(d, k[1], k[2]) if k[0] == 'int' else d
+            if v is None:
+                # discriminant of an uninitialised local (artifact of std's optimised MIR; the result only feeds an
+                # `assume`): an unconstrained value
+                self.sym_counter += 1
+                k = self.p.kind(dest_ty)
+                return z3.BitVec(f"undef!{self.sym_counter}", k[1] if k[0] == 'int' else 64)
             r = self.M.discriminant_of(self, v, dest_ty)
             if r is NotImplemented:
                 raise Unsupported(f"discriminant of {v!r}"[:200])
